@@ -268,6 +268,9 @@ Definition from_str_inner (s0 : bytes) : outcome tree_err (list node) :=
     end
   end.
 
+Definition no_panic_t {A} (o : outcome tree_err A) : Prop := match o with Panic _ => False | _ => True end.
+Definition rejected_t {A} (o : outcome tree_err A) : Prop := match o with Err _ => True | _ => False end.
+
 (* ---------------------------------------------------------------- specification side *)
 (* the obvious recursive trees, their printer, and the node vector of a tree *)
 Inductive etree := ENode (name : bytes) (p : parens) (children : list etree).
